@@ -23,7 +23,7 @@ RULE = ('seeded TdmsWriter programs (as C08) with session splits; after every se
         'type the value mapping prescribes (on-disk type taken from the independent parser), names unchanged. '
         'distinct = (object kinds/forms per call, sessions, sink); non-trivial = a channel with >= 1 value and a '
         'property were compared')
-EXPECTED_PROBES = ['append-session', 'int-boundary-property', 'timestamp-data', 'string-data', 'complex-data',
+EXPECTED_PROBES = ['twin-writers-interleaved', 'append-session', 'int-boundary-property', 'timestamp-data', 'string-data', 'complex-data',
                    'list-int-data', 'repeated-channel', 'multibyte-text']
 UNIX_EPOCH_US = np.datetime64('1970-01-01T00:00:00', 'us')
 
@@ -31,7 +31,73 @@ UNIX_EPOCH_US = np.datetime64('1970-01-01T00:00:00', 'us')
 def generate(rng, tier):
     prog = wgen.gen_program(rng)
     sink = rng.choice(['simpath', 'simstream', 'bytesio', 'realpath'])
-    return {'program': prog, 'sink': sink, 'index': rng.random() < 0.3}
+    case = {'program': prog, 'sink': sink, 'index': rng.random() < 0.3}
+    if rng.random() < 0.15:
+        # a second writer alive at the same time on another file; a seeded schedule alternates their calls
+        case['twin'] = wgen.gen_program(rng, max_calls=5)
+        if rng.random() < 0.5:
+            # ... writing the same objects: what one writer has declared or written must not matter to the other
+            case['twin'] = retarget(rng, case['twin'], prog)
+        case['twin_sink'] = rng.choice(['simpath', 'simstream', 'bytesio'])
+        case['twin_schedule'] = [rng.random() < 0.5 for _ in range(40)]
+    return case
+
+
+def retarget(rng, twin, prog):
+    """Renames the twin program's groups and channels to names used by the main program (where there are enough)."""
+    names = []
+    for sess in prog['sessions']:
+        for call in sess:
+            for o in call:
+                if o['kind'] == 'channel' and (o['group'], o['channel']) not in names:
+                    names.append((o['group'], o['channel']))
+    if not names:
+        return twin
+    import copy
+    twin = copy.deepcopy(twin)
+    gmap, cmap = {}, {}
+    for sess in twin['sessions']:
+        for call in sess:
+            for o in call:
+                if o['kind'] == 'channel':
+                    k = (o['group'], o['channel'])
+                    if k not in cmap:
+                        free = [n for n in names if n not in cmap.values() and gmap.get(o['group'], n[0]) == n[0]]
+                        if not free:
+                            return twin if not cmap else _apply(twin, gmap, cmap)
+                        cmap[k] = rng.choice(free)
+                        gmap[o['group']] = cmap[k][0]
+    return _apply(twin, gmap, cmap)
+
+
+def _apply(twin, gmap, cmap):
+    # only a consistent renaming is applied: every channel mapped, every group mapped injectively
+    if len(set(gmap.values())) != len(gmap):
+        return twin
+    for sess in twin['sessions']:
+        for call in sess:
+            for o in call:
+                if o['kind'] == 'channel':
+                    if (o['group'], o['channel']) not in cmap:
+                        return twin
+    groups_unmapped = set()
+    for sess in twin['sessions']:
+        for call in sess:
+            for o in call:
+                if o['kind'] == 'group' and o['group'] not in gmap:
+                    groups_unmapped.add(o['group'])
+    taken = set(gmap.values())
+    for g in groups_unmapped:
+        if g in taken:
+            return twin
+    for sess in twin['sessions']:
+        for call in sess:
+            for o in call:
+                if o['kind'] == 'channel':
+                    o['group'], o['channel'] = cmap[(o['group'], o['channel'])]
+                elif o['kind'] == 'group' and o['group'] in gmap:
+                    o['group'] = gmap[o['group']]
+    return twin
 
 
 def us_of(dt64):
@@ -209,21 +275,90 @@ def execute(case):
                 res.violations.extend(vs)
                 if len(res.violations) > 150:
                     state['stop'] = True
+        twin = case.get('twin')
         try:
-            tr = wexec.run_program(st, prog, case['sink'], case['index'], after_session=after)
+            if twin is None:
+                tr = wexec.run_program(st, prog, case['sink'], case['index'], after_session=after)
+                traces = [tr]
+            else:
+                # two writers as cooperative tasks: the schedule decides whose next write_segment call (or session end) runs
+                res.probe('twin-writers')
+                tr, tr2 = wexec.Trace(), wexec.Trace()
+
+                def after2(t, k):
+                    if state['stop'] or not any(r['accepted'] for r in t.calls):
+                        return
+                    vs = compare_read(t, t.data, res, 'second writer, after session %d' % (k + 1))
+                    res.ev('twin-session', k, digest(t.data), [v.tag for v in vs])
+                    for v in vs:
+                        v.sig['twin'] = True
+                    res.violations.extend(vs)
+                tasks = [wexec.steps_program(st, prog, case['sink'], case['index'], tr, after_session=after),
+                         wexec.steps_program(st, twin, case['twin_sink'], False, tr2, name='twin.tdms', after_session=after2)]
+                live = [0, 1]
+                sched = list(case['twin_schedule'])
+                step = 0
+                switches = 0
+                last = None
+                while live:
+                    pick = live[(1 if sched[step % len(sched)] else 0) % len(live)] if sched else live[0]
+                    step += 1
+                    try:
+                        next(tasks[pick])
+                    except StopIteration:
+                        live.remove(pick)
+                    if last is not None and pick != last:
+                        switches += 1
+                    last = pick
+                    res.steps += 1
+                if switches >= 2:
+                    res.probe('twin-writers-interleaved')
+                traces = [tr, tr2]
         except Exception as exc:
             res.violations.append(V('C07.writer-raises', 'outside write_segment: %s: %s' % (type(exc).__name__, exc),
                                     exc=type(exc).__name__))
             return res
-        for i, rec in enumerate(tr.calls):
-            if not rec['accepted'] and rec.get('must_accept'):
-                res.violations.append(V('C07.rejects-supported-input', 'call %d uses only supported objects and values but '
-                                        'write_segment raised %s' % (i, rec['exc']), exc=rec['exc'].split(':')[0]))
+        for tr in traces:
+            check_accepts(tr, res)
     return res
 
 
-shrink_candidates = c08_shrink
+def check_accepts(tr, res):
+    for i, rec in enumerate(tr.calls):
+        if not rec['accepted'] and rec.get('must_accept'):
+            res.violations.append(V('C07.rejects-supported-input', 'call %d uses only supported objects and values but '
+                                    'write_segment raised %s' % (i, rec['exc']), exc=rec['exc'].split(':')[0]))
+
+
+def shrink_candidates(case):
+    if case.get('twin') is not None:
+        c = {k: v for k, v in case.items() if not k.startswith('twin')}
+        yield c
+        # the violation may be in the second writer's file: swap roles, then drop
+        c = dict(case)
+        c['program'], c['twin'] = case['twin'], case['program']
+        c['sink'], c['twin_sink'] = case['twin_sink'], case['sink']
+        c['index'] = False
+        c2 = {k: v for k, v in c.items() if not k.startswith('twin')}
+        yield c2
+        # shrink the twin program with the same candidates
+        sub = {'program': case['twin'], 'sink': case['twin_sink'], 'index': False}
+        for cand in c08_shrink(sub):
+            c = dict(case)
+            c['twin'] = cand['program']
+            yield c
+        for alt in ([False] * 40, [True] * 40, [False, True] * 20):
+            if case['twin_schedule'] != alt:
+                c = dict(case)
+                c['twin_schedule'] = alt
+                yield c
+    for c in c08_shrink(case):
+        yield c
 
 
 def sample(case):
-    return {'program': prog_sig(case['program']), 'sink': case['sink'], 'index': case['index']}
+    out = {'program': prog_sig(case['program']), 'sink': case['sink'], 'index': case['index']}
+    if case.get('twin') is not None:
+        out['second_writer'] = {'program': prog_sig(case['twin']), 'sink': case['twin_sink'],
+                                'schedule': ''.join('B' if b else 'A' for b in case['twin_schedule'][:16])}
+    return out
